@@ -676,6 +676,12 @@ fn unused_size(used: &[(u8, String, usize)], t: u8, id: &str, mut n: usize) -> u
     n
 }
 
+/// The `cacheable` flag callers pass for a file: a function of the file (a pack is a tree pack — cached — or a data pack — never cached),
+/// here derived from the id: packs whose id starts with `0`..`4` are data packs.
+fn cbf(t: u8, id: &str) -> u8 {
+    u8::from(t == 4 && !matches!(id.as_bytes()[0], b'0'..=b'4'))
+}
+
 pub fn generate(thorough: bool, rng: &mut Rng, ops: &mut Vec<String>, stats: &mut Stats) {
     // two handles strictly alternating: every operation of the cached handle is preceded by a change made through the
     // uncached handle (a new file, a removal, an overwrite with another size) of a type the cache keeps, so the cache
@@ -687,13 +693,14 @@ pub fn generate(thorough: bool, rng: &mut Rng, ops: &mut Vec<String>, stats: &mu
         let mut gone: Vec<(u8, String, usize)> = Vec::new();
         let mut steps: Vec<String> = Vec::new();
         for _ in 0..n {
-            let t = *rng.pick(&[1u8, 3, 3, 4]);
-            let cb = u8::from(t == 4);
+            // (2 = key files and data packs — `cbf` = 0 — are never cached)
+            let t = *rng.pick(&[1u8, 3, 3, 4, 4, 4, 2]);
             // --- the other process
             let (ut, uid, ulen) = match rng.below(4) {
                 0 | 1 => {
                     stats.hit("alt.u-write-new");
                     let id = hex::encode(rng.bytes(32));
+                    let cb = cbf(t, &id);
                     let len = *rng.pick(&[0usize, 1, 7, 40, 300]);
                     steps.push(format!("w,u,{t},{id},{cb},{}", if len > 64 { format!("g{}.{len}", rng.below(1 << 30)) } else { hex(&rng.bytes(len)) }));
                     live.push((t, id.clone(), len));
@@ -703,7 +710,7 @@ pub fn generate(thorough: bool, rng: &mut Rng, ops: &mut Vec<String>, stats: &mu
                     stats.hit("alt.u-remove");
                     let i = rng.below(live.len() as u64) as usize;
                     let (t, id, len) = live.remove(i);
-                    steps.push(format!("d,u,{t},{id},{}", u8::from(t == 4)));
+                    steps.push(format!("d,u,{t},{id},{}", cbf(t, &id)));
                     gone.push((t, id.clone(), len));
                     (t, id, len)
                 }
@@ -712,14 +719,14 @@ pub fn generate(thorough: bool, rng: &mut Rng, ops: &mut Vec<String>, stats: &mu
                     let i = rng.below(live.len() as u64) as usize;
                     let (t, id, len) = live[i].clone();
                     let nl = len + 1 + rng.below(5) as usize;
-                    steps.push(format!("w,u,{t},{id},{},g{}.{nl}", u8::from(t == 4), rng.below(1 << 30)));
+                    steps.push(format!("w,u,{t},{id},{},g{}.{nl}", cbf(t, &id), rng.below(1 << 30)));
                     live[i].2 = nl;
                     (t, id, nl)
                 }
                 _ => {
                     stats.hit("alt.u-write-new");
                     let id = hex::encode(rng.bytes(32));
-                    steps.push(format!("w,u,{t},{id},{cb},0102030405"));
+                    steps.push(format!("w,u,{t},{id},{},0102030405", cbf(t, &id)));
                     live.push((t, id.clone(), 5));
                     (t, id, 5)
                 }
@@ -738,7 +745,21 @@ pub fn generate(thorough: bool, rng: &mut Rng, ops: &mut Vec<String>, stats: &mu
             } else {
                 (ut, uid, ulen)
             };
-            if rng.chance(1, 6) {
+            let never_cached = !matches!(rt, 1 | 3) && cbf(rt, &rid) == 0;
+            if never_cached && rng.chance(1, 2) {
+                // a foreign file where the entry of a NEVER-cached file (data pack, key) would be — its size, or longer: the cached handle
+                // must not look at it (reads, whole and ranged, go to the repository)
+                stats.hit("alt.foreign-file-at-noncacheable-entry");
+                let dir = ["config", "index", "keys", "snapshots", "data"][rt as usize];
+                let n = rlen + rng.below(3) as usize;
+                let data = if n > 64 || rng.chance(1, 2) { format!("g{}.{n}", rng.below(1 << 30)) } else { hex(&vec![0u8; n]) };
+                if rng.chance(3, 4) {
+                    steps.push(format!("s,{dir}/{}/{rid},{data}", &rid[..2]));
+                } else {
+                    steps.push(format!("x,{dir}/{}/{rid}", &rid[..2]));
+                    steps.push(format!("y,{dir}/{}/{rid},{data}", &rid[..2]));
+                }
+            } else if rng.chance(1, 6) {
                 // a directory where the entry of that file belongs (stays there for the rest of the history)
                 let dir = ["config", "index", "keys", "snapshots", "data"][rt as usize];
                 if rng.chance(2, 3) {
@@ -763,16 +784,16 @@ pub fn generate(thorough: bool, rng: &mut Rng, ops: &mut Vec<String>, stats: &mu
                     stats.hit("alt.c-read-partial");
                     let off = rng.below(rlen as u64 + 1) as usize;
                     let l = if rng.chance(1, 5) { rlen - off + 1 } else { rng.below((rlen - off) as u64 + 1) as usize };
-                    steps.push(format!("p,c,{rt},{rid},{},{off},{l}", u8::from(rt == 4)));
+                    steps.push(format!("p,c,{rt},{rid},{},{off},{l}", cbf(rt, &rid)));
                 }
                 _ => {
                     stats.hit("alt.c-remove");
-                    steps.push(format!("d,c,{rt},{rid},{}", u8::from(rt == 4)));
+                    steps.push(format!("d,c,{rt},{rid},{}", cbf(rt, &rid)));
                     live.retain(|(a, b, _)| !(*a == rt && *b == rid));
                 }
             }
         }
-        for t in [1, 3, 4] {
+        for t in [1, 3, 4, 2] {
             steps.push(format!("l,c,{t}"));
         }
         steps.push("f".into());
@@ -794,7 +815,7 @@ pub fn generate(thorough: bool, rng: &mut Rng, ops: &mut Vec<String>, stats: &mu
             let h = if rng.chance(2, 3) { "c" } else { "u" };
             // the cacheable flag of a pack is a function of the pack (tree pack or data pack): callers never write a
             // file as cacheable and remove or read it as non-cacheable, so the flag is derived from the id
-            let cb_of = |t: u8, id: &str| u8::from(t == 4 && !matches!(id.as_bytes()[0], b'0'..=b'4'));
+            let cb_of = cbf;
             let fresh = |rng: &mut Rng, pool: &mut Vec<String>| {
                 let id = if !pool.is_empty() && rng.chance(1, 5) {
                     // same two-character prefix as an existing id
@@ -884,7 +905,55 @@ pub fn generate(thorough: bool, rng: &mut Rng, ops: &mut Vec<String>, stats: &mu
                     let (t2, id, len) = known(rng, &written, &mut pool, t);
                     let dir = dirs[t2 as usize];
                     let proper = format!("{dir}/{}/{id}", &id[..2]);
-                    match rng.below(20) {
+                    match rng.below(23) {
+                        20..=22 => {
+                            // a foreign file (or a symlink to one) at the cache location of a file that is NEVER cached — config, key, data pack
+                            // (`cacheable = false`) — of the file's own size, longer, or a cut copy; then whole and ranged reads of that file
+                            // through both handles: the cached handle must not look into the cache for it
+                            let never: Vec<(u8, String, usize)> =
+                                written.iter().filter(|(a, b, _)| !matches!(*a, 1 | 3) && cb_of(*a, b) == 0).cloned().collect();
+                            let (t3, id3, len3) = if !never.is_empty() && rng.chance(3, 4) {
+                                rng.pick(&never).clone()
+                            } else {
+                                // (a new data pack / key / config file, written through either handle)
+                                let t3 = *rng.pick(&[4u8, 4, 4, 2, 0]);
+                                let id3 = format!("{}{}", rng.below(5), &hex::encode(rng.bytes(32))[1..]);
+                                pool.push(id3.clone());
+                                let len3 = unused_size(&sizes_used, t3, &id3, *rng.pick(&[1usize, 5, 33, 100, 700]));
+                                sizes_used.push((t3, id3.clone(), len3));
+                                let data = if len3 > 64 { format!("g{}.{len3}", rng.below(1 << 30)) } else { hex(&rng.bytes(len3)) };
+                                written.push((t3, id3.clone(), len3));
+                                tokens.push((t3, id3.clone(), data.clone()));
+                                steps.push(format!("w,{h},{t3},{id3},0,{data}"));
+                                (t3, id3, len3)
+                            };
+                            let proper = format!("{}/{}/{id3}", dirs[t3 as usize], &id3[..2]);
+                            let n = match rng.below(4) {
+                                0 => len3 + 1 + rng.below(9) as usize,
+                                1 => len3 / 2,
+                                _ => len3,
+                            };
+                            let data = if n > 64 || rng.chance(1, 2) { format!("g{}.{n}", rng.below(1 << 30)) } else { hex(&vec![0u8; n]) };
+                            if rng.chance(3, 4) {
+                                stats.hit("plant.foreign-at-noncacheable-entry");
+                                steps.push(format!("s,{proper},{data}"));
+                            } else {
+                                stats.hit("plant.link-to-foreign-at-noncacheable-entry");
+                                steps.push(format!("y,{proper},{data}"));
+                            }
+                            for hh in ["c", "u"] {
+                                if rng.chance(2, 3) {
+                                    stats.hit(format!("op.read-full.noncacheable-planted.{hh}"));
+                                    steps.push(format!("r,{hh},{t3},{id3}"));
+                                }
+                                if len3 > 0 && rng.chance(4, 5) {
+                                    stats.hit(format!("op.read-partial.noncacheable-planted.{hh}"));
+                                    let off = rng.below(len3 as u64) as usize;
+                                    let l = 1 + rng.below((len3 - off) as u64) as usize;
+                                    steps.push(format!("p,{hh},{t3},{id3},0,{off},{l}"));
+                                }
+                            }
+                        }
                         18 => {
                             // a SYMLINK TO A REGULAR FILE at the proper entry path: an intact copy of the last version written, or
                             // foreign bytes of a size no version has (a stale / wrong-sized "entry" that a listing must remove)
@@ -1052,7 +1121,7 @@ pub fn generate(thorough: bool, rng: &mut Rng, ops: &mut Vec<String>, stats: &mu
                 _ => steps.push("b".into()),
             }
         }
-        for t in [1, 3, 4] {
+        for t in [1, 3, 4, 2, 0] {
             steps.push(format!("l,c,{t}"));
         }
         steps.push("f".into());
